@@ -77,17 +77,7 @@ Calls ==
   \cup {Call0 @@ [a |-> "RemoveExpiredAllocs", c |-> "x", cl |-> "c1", ids |-> q, removed |-> {}] : q \in {<<>>} \cup {<<i>> : i \in Ids}}
   \cup {Call0 @@ [a |-> "Terminate", m |-> Prov, n |-> n] : n \in InAmt(SM)}
 
-Do(vr, sm, call, e) ==
-  CASE call.a = "Transfer" -> OnVR(Transfer(vr, call.c, call.to, call.amt, call.allocs, call.exts, e), sm)
-    [] call.a = "ExtendClaimTerms" -> OnVR(ExtendClaimTerms(vr, call.c, call.terms), sm)
-    [] call.a = "RemoveExpiredClaims" -> OnVR(RemoveExpiredClaims(vr, call.p, call.ids, e), sm)
-    [] call.a = "RemoveExpiredAllocs" -> OnVR(RemoveExpiredAllocs(vr, call.cl, call.ids, e), sm)
-    [] call.a = "CommitNI" -> CommitNI(vr, sm, call.n, call.exp, call.d, e)
-    [] call.a = "PreCommit" -> PreCommit(vr, sm, call.secs, e)
-    [] call.a = "ProveCommit" -> ProveCommit(vr, sm, call.secs, call.requireAll, e)
-    [] call.a = "ReplicaUpdate" -> ReplicaUpdate(vr, sm, call.ups, call.requireAll, e)
-    [] call.a = "Extend" -> Extend(vr, sm, call.decls, e)
-    [] call.a = "Terminate" -> Terminate(vr, sm, call.n, e)
+Do(vr, sm, call, e) == CDo(vr, sm, call, e)
 Filled(call, r) ==
   CASE call.a = "Transfer" -> [call EXCEPT !.ok = r.ok, !.ids = r.ids]
     [] call.a \in {"ExtendClaimTerms"} -> [call EXCEPT !.ok = r.ok, !.res = r.res]
